@@ -45,7 +45,17 @@ def proof_items():
                       why_bounded="recursion over dynamically typed containers (dict/tuple/list/set of anything)")]
 
 
+def _diamond():
+    """a(x) -> b(a), c(a) -> d(b, c): a node with two consumers, reached along two paths."""
+    return {"funcs": [{"name": "fa", "params": ["x"], "outputs": ["a"]}, {"name": "fb", "params": ["a"], "outputs": ["b"]},
+                      {"name": "fc", "params": ["a"], "outputs": ["c"]}, {"name": "fd", "params": ["b", "c"], "outputs": ["d"]}]}
+
+
 def _cases(tier, rng):
+    # (directed: part of a diamond is requested first, then its tip - for every kind of pipeline cache)
+    for cache in ("simple", "lru", "hybrid", "disk", "disk-nofront"):
+        for o1, o2 in (("b", "d"), ("a", "d"), ("c", "d"), ("b", "c")):
+            yield {"dag": _diamond(), "output": o1, "second_output": o2, "sequential": True, "with_dag": False, "cache": cache}
     for _ in range(900 if tier == "quick" else 9000):
         d = dag.gen_dag(rng, rng.randint(1, 4))
         outs = dag.all_outputs(d)
@@ -57,6 +67,12 @@ def _cases(tier, rng):
                    # the pipeline's own cache (every function cached): none, in-memory, or one that serialises what it
                    # stores; and whether the first request was made before the block was entered
                    "cache": rng.choice((None, None, "simple", "disk")), "first_outside": rng.random() < 0.3}
+        if len(outs) >= 2 and rng.random() < 0.5:
+            # two requests one after the other on one lazy pipeline that has a cache of its own (no block): within the
+            # second evaluation every function is invoked at most once however many consumers share it
+            o1, o2 = rng.sample(outs, 2)
+            yield {"dag": d, "output": o1, "second_output": o2, "sequential": True, "with_dag": False,
+                   "cache": rng.choice(("simple", "lru", "hybrid", "hybrid", "disk"))}  # (disk: with its in-memory front)
         if rng.random() < 0.15:
             # history: a construct_dag() block that was left through an exception comes first
             yield {"dag": d, "output": rng.choice(outs), "with_dag": rng.random() < 0.5,
@@ -181,17 +197,46 @@ def _two_outputs_in_one_dag(case, d):
     import tempfile
     tmp = None
     extra = {}
-    if case.get("cache") == "simple":
-        extra = {"cache_type": "simple", "cached": {f["name"] for f in d["funcs"]}}
-    elif case.get("cache") == "disk":
+    if case.get("cache") in ("simple", "lru", "hybrid"):
+        extra = {"cache_type": case["cache"], "cached": {f["name"] for f in d["funcs"]}}
+    elif case.get("cache") in ("disk", "disk-nofront"):
         tmp = tempfile.mkdtemp(prefix="vf_c18_")
+        # inside a block every hit is served by the block's own cache, so the pipeline's cache may serialise everything;
+        # for requests in a row the disk cache keeps its default in-memory front unless the case says otherwise
+        front = bool(case.get("sequential")) and case["cache"] == "disk"
         extra = {"cache_type": "disk", "cached": {f["name"] for f in d["funcs"]},
-                 "cache_kwargs": {"cache_dir": tmp, "with_lru_cache": False}}
+                 "cache_kwargs": {"cache_dir": tmp, "with_lru_cache": front}}
     p = dag.build(d, lazy=True, **extra)
     log: list = []
     progs.set_log(log)
     kw1 = {k: v for k, v in kw_all.items() if k in dag.needed_roots(d, o1, set())}
     kw2 = {k: v for k, v in kw_all.items() if k in dag.needed_roots(d, o2, set())}
+    if case.get("sequential"):
+        try:
+            import warnings
+            with warnings.catch_warnings():
+                warnings.simplefilter("ignore")
+                g1 = p(o1, **kw1).evaluate()
+                del log[:]
+                r2 = p(o2, **kw2)
+                if log:
+                    bad.append("functions invoked before evaluate() (second request on a cached lazy pipeline)")
+                g2 = r2.evaluate()
+            if g1 != w1 or g2 != w2:
+                bad.append(f"two requests in a row ({case['cache']} cache): got ({g1!r}, {g2!r}) want ({w1!r}, {w2!r})")
+            names = [n for n, _ in log]
+            twice = sorted({n for n in names if names.count(n) > 1})
+            if twice:
+                what = "disk cache without an in-memory front" if case["cache"] == "disk-nofront" else f"{case['cache']} cache"
+                bad.append(f"second request on a lazy pipeline with a {what}: {twice} invoked more than once "
+                           f"within one evaluate() (calls: {names})")
+        except Exception as e:  # noqa: BLE001
+            bad.append(f"two requests in a row on a cached lazy pipeline raised {type(e).__name__}: {str(e)[:150]}")
+        finally:
+            progs.set_log(None)
+            if tmp:
+                shutil.rmtree(tmp, ignore_errors=True)
+        return bad
     try:
         if case.get("first_outside"):
             r1 = p(o1, **kw1)
